@@ -42,33 +42,33 @@ CLAIMS = {
             "4/C14", TRUST + " JSON files (with schema) are judged through the workspace query, the only entry point that serves them (SymbolsInFile rejects JSON with an error value by design): names, nesting, JSON source order, ranges inside the file and inside the parent; what JSON expressions yield as nested symbols is not judged."),
     "C15": ("property-based testing (rapid) against a reference diagnostics model (effective schema computed on the serialisable model; injected violations at any depth)",
             "Generated schemas and configurations with injected violations; the expected multiset of (severity, summary, subject) is computed by a reference model written from the statement over the model schema (own dependent-body selection and overlay) and the parser's AST, and compared with ValidateFile / Validate.",
-            "4/C15", TRUST + " Regions the statement leaves open (dynamic blocks, null/unknown key values, ambiguous two-level keys) are excluded from both sides and counted."),
-    "C12": ("property-based testing (rapid): validity predicate on every hover result plus a reference model for names, block types and labels (effective schema on the serialisable model, cursor classified on the parser AST)",
-            "Every cursor of generated valid, edited and half-typed files: a hover is an error/nothing or non-empty content with a valid range containing the cursor; on attribute names, block types and labels the content, description (static + selected dependent body) and range are compared with the model; unknown elements must yield nothing; inside values the range must stay inside the value.",
-            "4/C12", TRUST + " Which sub-expression a value hover describes is bounded by range containment only."),
+            "4/C15", TRUST + " Regions the statement leaves open (dynamic blocks, null/unknown key values, ambiguous two-level keys) are excluded from both sides and counted; inside a block whose key attribute is written without static value the clause 'nothing is reported as unexpected' is still enforced for its direct items."),
+    "C12": ("property-based testing (rapid): validity predicate on every hover result plus a reference model for names, block types and labels (effective schema on the serialisable model, cursor classified on the parser AST) and a constraint-directed value model for the innermost-literal clause",
+            "Every cursor of generated valid, edited and half-typed files: a hover is an error/nothing or non-empty content with a valid range containing the cursor; on attribute names, block types and labels the content, description (static + selected dependent body) and range are compared with the model; unknown elements must yield nothing; inside values the range must stay inside the value, and a cursor inside a literal of a value whose shape fits its constraint (constructors with literal / non-literal keys, known calls, operators, conditionals, parentheses, index keys; partial per element) must be described by exactly that literal.",
+            "4/C12", TRUST + " Beyond literals (references, calls, keys) the sub-expression a value hover describes is bounded by range containment only. One known finding (literal inside a constructor that is a branch of a conditional) is listed in known_findings.json."),
     "C13": ("property-based testing (rapid): ordering/disjointness invariants on all files; structural-token exactness and literal tokens against a reference model",
-            "Generated files incl. broken ones: tokens sorted, disjoint, non-empty, advertised types, deterministic. Against the model: attribute-name / block-type / label tokens are exactly the schema-known elements with inherited modifiers, nothing marks unknown attributes / blocks / surplus labels, value tokens stay inside known values, and an exact value-token model (literals, keywords, type names, map and object keys, known function names; reference steps optional) is compared for every value whose shape fits its constraint.",
+            "Generated files incl. broken ones: tokens sorted, disjoint, non-empty, advertised types, deterministic. Against the model: attribute-name / block-type / label tokens are exactly the schema-known elements with inherited modifiers, nothing marks unknown attributes / blocks / surplus labels, value tokens stay inside known values, and an exact value-token model (literals, keywords, type names, map and object keys, known function names, literals under operators / conditionals / parentheses / index keys; reference steps optional; partial per element) is compared for every value whose shape fits its constraint.",
             "4/C13", TRUST + " Value tokens are compared one by one for values whose shape fits their constraint (literals, keywords, type names, map / object keys, known function names); whether a reference step is marked depends on resolution and is only bounded here."),
     "C07": ("property-based testing (rapid) against a reference model of the effective schema (own dependent-body selection and overlay on the serialisable model); acceptance relation by applying candidates and re-validating",
             "Generated schema/configuration pairs with sprinkled blank lines and half-typed names; every cursor is classified on the parser AST and the ordered candidate list is compared with the model (attributes, count/for_each, block types still declarable with the typed prefix; dependent-body label values inside completable labels). Sampled candidates are applied and the file re-validated.",
             "4/C07", TRUST + " Exactness is judged only where error recovery cannot have reshaped the body (parse errors tolerated on the cursor line and on lone-identifier lines); `dynamic` and the any-attribute placeholder are don't-care."),
     "C16": ("property-based testing (rapid): permutation/collision relations on schema keys; constructed dependent-body scenarios with a marker per body and cross-feature agreement",
             "Key level: NewSchemaKey is compared across permutations and across different key sets (canonical form computed by the harness). Feature level: for a constructed block with dependent bodies registered under permuted key sets and an instance written to select one, hover, tokens, validation, targets, origins, completion and links must all reflect exactly the body the reference model (and the construction) selects.",
-            "4/C16", TRUST + " The scenario covers label keys, attribute keys (literal, default, reference) and a second level keyed by an attribute of a first-level body (written, defaulted, unregistered value); arbitrary schemas with two-level bodies are additionally exercised by C03/C04/C13/C15."),
+            "4/C16", TRUST + " The scenario covers label keys, attribute keys (literal, default, reference) and a second level keyed by an attribute of a first-level body (written, defaulted, unregistered value) and key attributes written as expressions without static value (no body may be selected); arbitrary schemas with two-level bodies are additionally exercised by C03/C04/C13/C15."),
     "C10": ("property-based testing (rapid): differential against HCL's own Variables() on the places a reference model (constraint-directed structural descent on the serialisable schema) says admit references",
             "Generated schemas and type-correct, reference-heavy expressions; the expected set of (address, range) is computed from HCL's Variables() restricted to admitting places of the effective schema and compared with CollectReferenceOrigins (local origins exactly, ordering, path and direct origins).",
             "4/C10", TRUST + " Statement-silent classes (for iterator variables, arguments of unknown / parameterless functions, surplus arguments, key expressions, dynamic blocks) are don't-care regions."),
     "C09": ("property-based testing (rapid) against a reference model of addressable declarations (addresses from declared steps, body types, extents from the parser AST) plus structural rules on the collected tree",
-            "Generated schemas with every addressing form and generated configurations; completeness (each addressable declaration of the effective schema yields its target with the modelled address / scope / type / range / definition range), soundness (each collected target is explained by an addressable declaration and carries its address; nothing for unknown items) and structure (nested address = parent + one step, list indexes in source order, own extents).",
+            "Generated schemas with every addressing form and generated configurations; completeness (each addressable declaration of the effective schema yields its target with the modelled address / scope / type / range / definition range), soundness (each collected target is explained by an addressable declaration and carries its address; nothing for unknown items) and structure (nested address = parent + one step, list indexes in source order, own extents); 20% of cases judge the position clause on one configuration rendered natively and as JSON with hand-made layout.",
             "4/C09", TRUST + " One known finding (D21, first element of a block group) is listed in known_findings.json; types of expression-typed attributes are only modelled for plain literals (under a one-of: when the members admitting the literal agree and all other members are of kinds that declare no targets); every targetable of the effective schema is an expected target."),
     "C11": ("property-based testing (rapid) over Terraform-like worlds with resolving references; independent matching predicate (necessary / sufficient conditions) and the go-to-definition / find-references inverse relation",
             "For every collected origin, go-to-definition is judged sound and complete against a matching predicate written from the statement (address equality / dynamic prefix / block-local containment / scope and type constraints, target path), and find-references at each reported definition must list the origin; find-references results must themselves be collected origins pointing into the queried path that denote a declaration at the position.",
             "4/C11", TRUST + " The sets of targets and origins are the collectors' own output (their exactness is C09/C10). Worlds have 1-3 paths; in three-path worlds the third is a twin of the first (same file names and ranges) so that origins of different paths collide on everything but the path."),
     "C19": ("property-based testing (rapid), differential: one structured configuration rendered in native and in JSON syntax, reference graph and outline compared",
-            "One generated configuration model (any-expression, reference, one-of(reference, literal), list, map, object and literal constraints; interpolated and legacy bare-string references) is rendered twice; absolute targets (address, type, scope, nesting), origin addresses with constraints up to the documented any-type fallback, and the block/attribute outline must agree between the two syntaxes.",
+            "One generated configuration model (any-expression, reference, self-addressing reference, one-of(reference, literal), list, map, object and literal constraints, a second-level dependency key; interpolated and legacy bare-string references; JSON with regular or hand-made layout) is rendered twice; absolute targets (address, type, scope, nesting), origin addresses with constraints up to the documented any-type fallback, and the block/attribute outline must agree between the two syntaxes.",
             "4/C19", TRUST + " Only schema-known attributes are written (JSON cannot tell unknown attributes from blocks), and where a reference and a string literal are both admitted the literals are strings that are no traversal (JSON cannot tell them from a legacy reference); ranges and block-local targets are ignored as the statement says. One known finding (escaped string index under a Reference constraint) is listed in known_findings.json."),
     "C08": ("property-based testing (rapid): validity predicate per value-completion candidate against the collected declarations and the attribute's constraint; round trip through go-to-definition",
-            "Terraform-like worlds with resolving references and half-typed values; every candidate inside an attribute value is judged: reference candidates are addresses of collected declarations, start with the typed text, are visible (block-local names, self.*), are not the edited attribute and fit the expected scope/type where known; function candidates are known functions with convertible return type; accepted reference candidates resolve back through go-to-definition.",
+            "Terraform-like worlds with resolving references and half-typed values; every candidate inside an attribute value is judged: reference candidates are addresses of collected declarations, insert text that reads back as a traversal denoting the label, start with the typed text, are visible (block-local names, self.*), are not the edited attribute and fit the expected scope/type where known; function candidates are known functions with convertible return type; accepted reference candidates resolve back through go-to-definition.",
             "4/C08", TRUST + " Soundness of candidates only ('offers only what fits'); the expected scope/type is judged where the value is a plain traversal or empty, and inside the parentheses of a call of a known function (the parameter of the comma-counted argument slot decides), and inside object constructors (the attribute of the item under the cursor decides; an item whose key is no literal name admits no reference / function / boolean candidate)."),
 }
 
